@@ -485,7 +485,14 @@ var typeList = regexp.MustCompile(`\[[A-L](, [A-L])*\]`)
 var idxTok = regexp.MustCompile(`\[(1?[0-9])\]`)
 
 // skeleton normalises a statement: per-parameter tokens are collapsed so that arities compare equal.
+// skeletonRaw switches the resolution of naming locals off (the arity-0 comparison matches single statements of
+// differently built functions and works on the text as written).
+var skeletonRaw bool
+
 func skeleton(m *core.Model, s ast.Stmt) string {
+	if !skeletonRaw {
+		s = resolveLocals(m, s)
+	}
 	str := printNode(m.Prog.Fset, s)
 	str = typeList.ReplaceAllString(str, "[T]")
 	str = digitTok.ReplaceAllString(str, "${1}N")
@@ -501,7 +508,61 @@ func skeleton(m *core.Model, s ast.Stmt) string {
 	str = regexp.MustCompile(`(px \*T, )+px \*T`).ReplaceAllString(str, "px *T")
 	str = regexp.MustCompile(`make\(\[\]\*componentStorage, [0-9]+\)`).ReplaceAllString(str, "make([]*componentStorage, N)")
 	str = regexp.MustCompile(`make\(\[\]Comp, 0, [0-9]+\)`).ReplaceAllString(str, "make([]Comp, 0, N)")
+	// the printer spaces binary operators by nesting depth and line breaks; that is not part of the skeleton
+	str = regexp.MustCompile(`[ \t]*([*/%+-])[ \t]*`).ReplaceAllString(str, "$1")
 	return collapseTokens(str)
+}
+
+// namesOnly: s is `a, b := e1, e2` (or a var declaration) all of whose variables merely name a pure expression.
+func namesOnly(m *core.Model, s ast.Stmt) bool {
+	var ids []*ast.Ident
+	switch x := s.(type) {
+	case *ast.AssignStmt:
+		if x.Tok != token.DEFINE || len(x.Lhs) != len(x.Rhs) {
+			return false
+		}
+		for _, l := range x.Lhs {
+			id, ok := l.(*ast.Ident)
+			if !ok {
+				return false
+			}
+			ids = append(ids, id)
+		}
+	default:
+		return false
+	}
+	for _, id := range ids {
+		v, ok := m.Info.Defs[id].(*types.Var)
+		if !ok || m.LocalDef(v) == nil {
+			return false
+		}
+	}
+	return len(ids) > 0
+}
+
+// resolveLocals returns s with naming locals replaced by what they name in its expressions (the statement kinds that
+// occur in the generated families; others are returned as they are).
+func resolveLocals(m *core.Model, s ast.Stmt) ast.Stmt {
+	in := func(es []ast.Expr) []ast.Expr {
+		out := make([]ast.Expr, len(es))
+		for i, e := range es {
+			out[i] = m.InlineLocals(e)
+		}
+		return out
+	}
+	switch x := s.(type) {
+	case *ast.ExprStmt:
+		return &ast.ExprStmt{X: m.InlineLocals(x.X)}
+	case *ast.ReturnStmt:
+		return &ast.ReturnStmt{Results: in(x.Results)}
+	case *ast.AssignStmt:
+		lhs := x.Lhs
+		if x.Tok != token.DEFINE {
+			lhs = in(x.Lhs)
+		}
+		return &ast.AssignStmt{Lhs: lhs, Tok: x.Tok, Rhs: in(x.Rhs)}
+	}
+	return s
 }
 
 // flatten lists the simple statements of a body in order, with a prefix marking the control structure.
@@ -532,6 +593,11 @@ func flattenStmts(m *core.Model, list []ast.Stmt, prefix string, out *[]string) 
 		case *ast.BlockStmt:
 			flattenStmts(m, x.List, prefix, out)
 		default:
+			// a statement that only introduces locals naming an expression is not part of the skeleton: the uses
+			// are rendered with the expression (so that one arity may keep such a local and another not)
+			if !skeletonRaw && namesOnly(m, s) {
+				continue
+			}
 			// function literals inside the statement: flatten their bodies too
 			var lits []*ast.FuncLit
 			ast.Inspect(s, func(n ast.Node) bool {
@@ -609,16 +675,22 @@ func c14r3(c *core.Ctx) {
 	m := c.M
 	type key struct{ fam, method string }
 	groups := map[key]map[int][]string{}
+	rawGroups := map[key]map[int][]string{} // the same without resolution of naming locals
 	pos := map[key]map[int]*core.Func{}
 	add := func(fam string, arity int, method string, f *core.Func) {
-		var lines []string
+		var lines, raw []string
 		flattenStmts(m, f.Body.List, "", &lines)
+		skeletonRaw = true
+		flattenStmts(m, f.Body.List, "", &raw)
+		skeletonRaw = false
 		k := key{fam, method}
 		if groups[k] == nil {
 			groups[k] = map[int][]string{}
+			rawGroups[k] = map[int][]string{}
 			pos[k] = map[int]*core.Func{}
 		}
 		groups[k][arity] = collapse(lines)
+		rawGroups[k][arity] = collapse(raw)
 		pos[k][arity] = f
 	}
 	for _, f := range m.Funcs {
@@ -683,8 +755,8 @@ func c14r3(c *core.Ctx) {
 			}
 		}
 		// arity 0: its component-independent statements must occur, in order, in the others
-		if z, ok := byArity[0]; ok {
-			ref := strings.Split(best, "\n")
+		if z, ok := rawGroups[k][0]; ok {
+			ref := rawGroups[k][count[best][0]]
 			j := 0
 			missing := ""
 			for _, line := range z {
